@@ -17,7 +17,7 @@
 EXTENDS Naturals, Sequences, FiniteSets, TLC
 
 \* ---- value classes per declared type -----------------------------------------
-StringClasses == {"plain", "reserved", "unicode", "long", "slashes", "plus_space", "empty"}
+StringClasses == {"plain", "reserved", "unicode", "long", "slashes", "plus_space", "empty", "invalid_utf8"}
 IntClasses == {"zero", "min", "max", "over", "under", "alpha", "float", "plus_sign",
                "leading_space", "empty", "hex", "leading_zero"}
 BoolClasses == {"true", "false", "upper", "one", "yes", "empty"}
@@ -35,7 +35,7 @@ ClassesOf(ty) ==
 
 \* a textual scalar (path segment, query value, form value) of type ty
 ValidText(ty, c) ==
-  CASE ty = "string" -> TRUE
+  CASE ty = "string" -> c # "invalid_utf8"     \* bytes that are not UTF-8 are not a string
     [] ty \in IntTypes -> c \in {"zero", "min", "max", "plus_sign", "leading_zero"}
                            \* Rust's FromStr accepts an explicit '+' and leading zeros
     [] ty = "bool" -> c \in {"true", "false"}
@@ -64,11 +64,11 @@ JsonCases == {[pos |-> "json", ty |-> "struct", c |-> c] :
                        "ok_content_type_case",
                        "wrong_type", "over_range", "negative_unsigned", "float_for_int", "unknown_variant",
                        "missing_field", "duplicate_field", "truncated", "trailing_comma", "trailing_content",
-                       "second_document", "not_json", "empty_body", "wrong_content_type",
+                       "second_document", "not_json", "empty_body", "wrong_content_type", "invalid_utf8_in_string",
                        "unsupported_content_type", "null_body", "array_body"}}
 FormCases == {[pos |-> "form", ty |-> "struct", c |-> c] :
                 c \in {"ok", "ok_plus_space", "ok_pct", "ok_unicode", "wrong_type", "missing_field",
-                       "duplicate_field", "json_content_type", "empty_body"}}
+                       "duplicate_field", "json_content_type", "empty_body", "invalid_utf8"}}
 RawCases == {[pos |-> "raw", ty |-> "bytes", c |-> c] : c \in {"empty", "binary", "text", "large"}}
 MultipartCases == {[pos |-> "multipart", ty |-> "fields", c |-> c] :
                      c \in {"plain_boundary", "quoted_boundary", "boundary_then_param", "param_then_boundary",
